@@ -20,7 +20,7 @@ EXPLANATION = (
     "Decided: R13.1 for each compiled schema, every disagreement between generated metadata and the schema (fields, realms, messages, "
     "definitions, sortedness, counts, factories) is reported by schema element and generated symbol; R13.2 FieldSpec::_baseTypeMap ⊆ "
     "keys of FieldSpec::_typeToCPP, and each C++ type named there is a builtin or an alias declared in namespace FIX8 of field.hpp. "
-    "NOT decided: schemas not compiled here; the generated codec's run-time behaviour.")
+    "R13.3 the tag -> row index the generated classes are looked up through has slots of at least 16 bits (rule of C12 R12.8). NOT decided: schemas not compiled here; the generated codec's run-time behaviour.")
 extra = {}
 
 
@@ -118,4 +118,18 @@ def run(ctx):
                   'schema type %s → %s → C++ type `%s` declared by the runtime' % (xmltype, ftn.get(code, code), names[0] if names else '?'),
                   'schema type %s is accepted by the compiler and emitted as Field<%s, N>, but field.hpp declares no type `%s`: generated code for such a schema does not compile'
                   % (xmltype, names[0] if names else '?', names[0] if names else '?'))
+    # ---------------- R13.3 the generated trait tables are looked up through FieldTrait_Hash_Array (one per generated message / group class): a slot of that
+    # tag -> row index must be able to name every row a schema can produce (field counts are unsigned short in the generated code; FIX50SP2 has a message
+    # with 326 members) — the C12 rule R12.8 re-stated for the generated code's only way to its members
+    progr = Program(['runtime/message.cpp'])
+    ctx.units.add('runtime/message.cpp')
+    ha_rec = [r for (t, r) in progr.records('FIX8::FieldTrait_Hash_Array')]
+    ctx.need(ha_rec, 'FieldTrait_Hash_Array record not found')
+    fld_ = [x for x in ha_rec[0]['fields'] if x['n'] == '_arr']
+    ty_ = progr.tus[0].types[fld_[0]['t']] if fld_ else {}
+    pointee_ = progr.tus[0].types[ty_['pointee']] if 'pointee' in ty_ else {}
+    ctx.check(pointee_.get('bits', 0) >= 16, 'R13.3', 'FIX8::FieldTrait_Hash_Array::_arr#index-width', ha_rec[0]['file'].split('/')[-1],
+              'a slot of the tag -> row index the generated classes are looked up through is at least 16 bits wide',
+              'a slot of the tag -> row index is %s bits wide: a generated message or group with more than 255 members does not know its members from row 256 on '
+              '(reported as not belonging to the message)' % pointee_.get('bits'))
     ctx.floor('R13.2', 35)
